@@ -7,6 +7,7 @@ AS_H = 'src/tbb/arena_slot.h'
 TD_CPP = 'src/tbb/task_dispatcher.cpp'
 PF_H = 'include/oneapi/tbb/parallel_for.h'
 MB_H = 'src/tbb/mailbox.h'
+CHM_H = 'include/oneapi/tbb/concurrent_hash_map.h'
 CQB_H = 'include/oneapi/tbb/detail/_concurrent_queue_base.h'
 SRW_H = 'include/oneapi/tbb/spin_rw_mutex.h'
 QRW_CPP = 'src/tbb/queuing_rw_mutex.cpp'
@@ -386,6 +387,38 @@ MUTANTS = [
     dict(name='c09-bounded-push-abort-leaks-ticket', prop='C09', clause='D2', edits=[
         (CQ_H, "            }).on_exception( [&] {\n                my_queue_representation->choose(ticket).abort_push(ticket, *my_queue_representation, my_allocator);\n            });",
          "            }).on_exception( [&] {\n            });")]),
+    # ---------------------------------------------------------------- C10
+    dict(name='c10-exclude-reader-bucket', prop='C10', clause='D1', edits=[
+        (CHM_H, "            bucket_accessor b( this, hash & mask, /*writer=*/true );", "            bucket_accessor b( this, hash & mask );")]),
+    dict(name='c10-erase-no-upgrade', prop='C10', clause='D1', edits=[
+        (CHM_H, "            } else if (!b.is_writer() && !b.upgrade_to_writer()) {\n                if (this->check_mask_race(hash, mask)) // contended upgrade, check mask\n                    goto restart;\n                goto search;\n            }",
+         "            }")]),
+    dict(name='c10-erase-no-research', prop='C10', clause='D1', edits=[
+        (CHM_H, "                if (this->check_mask_race(hash, mask)) // contended upgrade, check mask\n                    goto restart;\n                goto search;\n            }",
+         "                if (this->check_mask_race(hash, mask)) // contended upgrade, check mask\n                    goto restart;\n            }")]),
+    dict(name='c10-insert-no-mask-check', prop='C10', clause='D2', edits=[
+        (CHM_H, "                    if( this->check_mask_race(h, m) )\n                        goto restart; // b.release() is done in ~b().\n                    // insert and set flag to grow the container",
+         "                    // insert and set flag to grow the container")]),
+    dict(name='c10-find-no-mask-check', prop='C10', clause='D2', edits=[
+        (CHM_H, "                    if( this->check_mask_race( h, m ) )\n                        goto restart; // b.release() is done in ~b(). TODO: replace by continue\n                    return false;",
+         "                    return false;")]),
+    dict(name='c10-erase-no-item-lock', prop='C10', clause='D3', edits=[
+        (CHM_H, "        {\n            typename node::scoped_type item_locker( erase_node->mutex, /*write=*/true );\n        }\n", "")]),
+    dict(name='c10-erase-item-lock-read', prop='C10', clause='D3', edits=[
+        (CHM_H, "            typename node::scoped_type item_locker( erase_node->mutex, /*write=*/true );", "            typename node::scoped_type item_locker( erase_node->mutex, /*write=*/false );")]),
+    dict(name='c10-exclude-no-upgrade', prop='C10', clause='D3', edits=[
+        (CHM_H, "        if (!item_accessor.is_writer()) { // need to get exclusive lock\n            item_accessor.upgrade_to_writer(); // return value means nothing here\n        }\n", "")]),
+    dict(name='c10-find-accessor-read-lock', prop='C10', clause='D4', edits=[
+        (CHM_H, "    bool find( accessor &result, const Key &key ) {\n        result.release();\n        return lookup</*insert*/false>(key, nullptr, &result, /*write=*/true, &do_not_allocate_node);",
+         "    bool find( accessor &result, const Key &key ) {\n        result.release();\n        return lookup</*insert*/false>(key, nullptr, &result, /*write=*/false, &do_not_allocate_node);")]),
+    dict(name='c10-const-accessor-mutable', prop='C10', clause='D4', edits=[
+        (CHM_H, "        const_reference operator*() const {\n            __TBB_ASSERT( my_node, \"attempt to dereference empty accessor\" );\n            return my_node->value();\n        }\n\n        // Return pointer to associated value in hash table.\n        const_pointer operator->() const {",
+         "        reference operator*() const {\n            __TBB_ASSERT( my_node, \"attempt to dereference empty accessor\" );\n            return my_node->value();\n        }\n\n        // Return pointer to associated value in hash table.\n        pointer operator->() const {")]),
+    dict(name='c10-insert-always-true', prop='C10', clause='D5', edits=[
+        (CHM_H, "        exists:\n            if( !result ) goto check_growth;", "        exists:\n            if (OpInsert) return_value = true;\n            if( !result ) goto check_growth;")]),
+    dict(name='c10-rehash-unmarked', prop='C10', clause='D2', edits=[
+        (CHM_H, "        b_new->node_list.store(reinterpret_cast<node_base*>(empty_rehashed_flag), std::memory_order_release); // mark rehashed\n        hashcode_type mask = (hashcode_type(1) << tbb::detail::log2(hash)) - 1; // get parent mask from the topmost bit\n        bucket_accessor b_old( this, hash & mask );",
+         "        hashcode_type mask = (hashcode_type(1) << tbb::detail::log2(hash)) - 1; // get parent mask from the topmost bit\n        bucket_accessor b_old( this, hash & mask );\n        b_new->node_list.store(reinterpret_cast<node_base*>(empty_rehashed_flag), std::memory_order_release); // mark rehashed")]),
 ]
 
 BENIGN = [
@@ -419,4 +452,6 @@ BENIGN = [
         ('include/oneapi/tbb/spin_mutex.h', "        m_flag.store(false, std::memory_order_release);", "        m_flag.exchange(false);")]),
     dict(name='c09-b-fetch_add-ticket', prop='C09', edits=[
         (CQ_H, "        ticket_type k = my_queue_representation->tail_counter++;", "        ticket_type k = my_queue_representation->tail_counter.fetch_add(1);")]),
+    dict(name='c10-b-erase-writer-from-start', prop='C10', edits=[
+        (CHM_H, "            // get bucket\n            bucket_accessor b( this, hash & mask );\n        search:", "            // get bucket\n            bucket_accessor b( this, hash & mask, true );\n        search:")]),
 ]
